@@ -657,7 +657,11 @@ def r3_dispatch_assert_agreement(ctx):
                         # the caller itself is only entered, through a dispatch table, on such a character:
                         # still true at the call if nothing was consumed on the way
                         al = _reader_aliases(fn)
-                        consumed = [nd for nd in g.nodes if any(_reader_op(x, al) in CONSUME or (P.un(x.func) in readers and P.un(x.func) != callee) for x in _node_calls(nd))]
+                        # (a context manager that only wraps the block in a try -- no stream operation, no reader
+                        # called -- consumes nothing)
+                        inert = {n for n, f2 in readers.items() if any("contextmanager" in d for d in P.decorators(f2))
+                                 and not any(_reader_op(x, _reader_aliases(f2)) in CONSUME or P.un(x.func) in readers for x in P.calls(f2))}
+                        consumed = [nd for nd in g.nodes if any(_reader_op(x, al) in CONSUME or (P.un(x.func) in readers and P.un(x.func) != callee and P.un(x.func) not in inert) for x in _node_calls(nd))]
                         after = g.reach([m for nd in consumed for m, lab in nd.succ if lab != "exc"])
                         ok = not any(nd.id in after or nd in consumed for nd in nodes)
                 ctx.ob("C16.R3", f"{RD}::{caller} calls {callee} (asserts {sorted(chars)}) only after establishing that character", RD, c.lineno, ok,
@@ -1686,6 +1690,36 @@ def r9_end_of_input_is_classified_as_such(ctx):
                     ctx.ob("C16.R9", f"{RD}::{fname}::`except {', '.join(names)}` around a reader lets UnexpectedEOFError through", RD, h.lineno, passed,
                            "" if passed else f"the handler catches {', '.join(names)} -- which includes UnexpectedEOFError -- around a call of a reader and raises a plain syntax error: input that ends inside the nested form is reported as malformed, and the REPL rejects what it should keep reading",
                            witness="(read-string \"#f \\\"{(a\") => SyntaxError instead of UnexpectedEOFError")
+    # ... and the same handler packaged as a context manager (`try: yield / except SyntaxError: raise
+    # ctx.syntax_error(...)`) re-labels whatever the `with` block raises
+    def _relabelling_handlers(t):
+        passed = False
+        for h in t.handlers:
+            names = ["BaseException"] if h.type is None else [P.un(x).split(".")[-1] for x in (h.type.elts if isinstance(h.type, ast.Tuple) else [h.type])]
+            if "UnexpectedEOFError" in names and any(isinstance(x, ast.Raise) and (x.exc is None or "eof_error" in P.un(x.exc) or P.un(x.exc) == (h.name or "")) for s in h.body for x in ast.walk(s)):
+                passed = True
+                continue
+            wide = any(n in ("SyntaxError", "Exception", "BaseException") for n in names)
+            relabels = any(isinstance(x, ast.Raise) and x.exc is not None and "syntax_error" in P.un(x.exc) for s in h.body for x in ast.walk(s))
+            if wide and relabels and not passed:
+                yield h, names
+    cms = {}
+    for name, f2 in sorted(fns.items()):
+        if not any("contextmanager" in d for d in P.decorators(f2)):
+            continue
+        for t in [x for x in ast.walk(f2) if isinstance(x, ast.Try)]:
+            if any(isinstance(y, (ast.Yield, ast.YieldFrom)) for s in t.body for y in ast.walk(s)):
+                for h, names in _relabelling_handlers(t):
+                    cms[name] = (h, names)
+    for fname, fn in sorted(fns.items()):
+        for w in [x for x in ast.walk(fn) if isinstance(x, ast.With)]:
+            used = [P.un(i.context_expr.func) for i in w.items if isinstance(i.context_expr, ast.Call) and P.un(i.context_expr.func) in cms]
+            reads = any(isinstance(c.func, ast.Name) and c.func.id in fns and c.func.id.startswith("_read") for s in w.body for c in P.calls(s))
+            if used and reads:
+                h, names = cms[used[0]]
+                ctx.ob("C16.R9", f"{RD}::{fname}::`with {used[0]}(...)` around a reader lets UnexpectedEOFError through", RD, w.lineno, False,
+                       f"{used[0]} catches {', '.join(names)} -- which includes UnexpectedEOFError -- and raises a plain syntax error; here it is wrapped around a call of a reader: input that ends inside the nested form is reported as malformed, and the REPL rejects what it should keep reading",
+                       witness="(read-string \"#?(:lpy [1 2\") => SyntaxError instead of UnexpectedEOFError")
     ctx.note(f"C16.R9: {n_runs} abstract runs (function x characters left)")
 
 
